@@ -534,7 +534,8 @@ func (s *c12Sys) enumerateCrashes(c *Case, durable *crashDB, b *c12Block, height
 
 func init() {
 	rule12 := "each case is a history of 1-24 (thorough 60) commits over 1-4 IAVL stores + one transient store with a pruning policy (the three named strategies or " +
-		"keepRecent in {0,1,2,5,100} x keepEvery in {0,1,2,3,5,10000}), lazy or eager loading, per-block sets/overwrites/deletes (keys reused across blocks), transient writes and reopen points; " +
+		"keepRecent in {0,1,2,5,100} x keepEvery in {0,1,2,3,5,10000}), eager loading, per-block sets/overwrites/deletes (keys reused across blocks), transient writes, reopen points and (1 block in 5) a restart one block behind: LoadVersion(h-1) when retained, " +
+		"then the block re-executed identically must commit without panic to the same id; " +
 		"after every commit: version step, commit id, content, transient store empty; at every reopen and at the end a fresh store loads every version in [1,latest+1]: retained => committed content " +
 		"and id, pruned/future => error. Non-trivial = the history has a pruned version, a retained non-latest version and a reopen after a delete; distinctness = hash of the program"
 	register(&PropDef{ID: "C12", Rule: rule12, Gen: genC12, New: func() interface{} { return &c12Prog{} }, Exec: execC12,
